@@ -44,9 +44,11 @@ class SysBase:
         ex = {"SAME": "(Some true)", "DIFF": "(Some false)", "-": "None"}[f["extracted"]]
         b = lambda x: "true" if x else "false"
         have = "[%s]" % ";".join("true" if x == "H" else "false" for x in f["st"].split(","))
-        return "CSys %s %s %s (Some (mksobs %s %s %s %s %s %s %s %s %s %s))" % (
+        if getattr(self, "needs_uploads", False):
+            c.nontrivial = int(f["upok"]) > 0
+        return "CSys %s %s %s (Some (mksobs %s %s %s %s %s %s %s %s %s %s %s %s %s))" % (
             offered, sole, have, b(f["allhave"] == "1"), ex, b("extractor" in f["spawned"]), b(f["mgr"] != "-"), f["taskpanics"],
-            f["files"], f["badfiles"], f["havenofile"], f["adverts"], f["earlyadverts"])
+            f["files"], f["badfiles"], f["havenofile"], f["adverts"], f["earlyadverts"], f["upok"], f["upbad"], f["upchoked"])
 
     def model_term(self, c):
         return "(%s)" % c.term
